@@ -332,8 +332,14 @@ bool hasComponentImports(const ComponentEntityConstPtr &componentEntity)
     return importsPresent;
 }
 
-bool hasUnitsImports(const UnitsPtr &units)
+bool hasUnitsImports(const UnitsPtr &units, std::vector<UnitsPtr> &unitsBeingTested)
 {
+    // Units that (directly or indirectly) refer to themselves have no further imports to find.
+    if (std::find(unitsBeingTested.begin(), unitsBeingTested.end(), units) != unitsBeingTested.end()) {
+        return false;
+    }
+    unitsBeingTested.push_back(units);
+
     bool importPresent = units->isImport();
     auto model = owningModel(units);
     size_t unistCount = units->unitCount();
@@ -341,11 +347,20 @@ bool hasUnitsImports(const UnitsPtr &units)
         std::string reference = units->unitAttributeReference(index);
         if (!reference.empty() && !isStandardUnitName(reference)) {
             if (model->hasUnits(reference)) {
-                importPresent = hasUnitsImports(model->units(reference));
+                importPresent = hasUnitsImports(model->units(reference), unitsBeingTested);
             }
         }
     }
+
+    unitsBeingTested.pop_back();
+
     return importPresent;
+}
+
+bool hasUnitsImports(const UnitsPtr &units)
+{
+    std::vector<UnitsPtr> unitsBeingTested;
+    return hasUnitsImports(units, unitsBeingTested);
 }
 
 bool Model::hasImports() const
